@@ -644,6 +644,32 @@ def day_readback(ck, S, rid):
         if vk != {"content"}:
             ck.ob(rid, sitestr(fn, good[0]), None, "%s: the value the modification time is set to could not be traced to the day of the content" % name, key="day-state|" + tag)
             continue
+        # the stamp must denote the day for the reader: init() takes the LOCAL date of the modification time, so the value written is a local
+        # time on that day - and one that exists: the hours around midnight are skipped by DST changes in some zones (23:00-24:00 in
+        # America/Nuuk, 00:00-01:00 in several others); an invalid QDateTime is refused by setFileTime() and the kernel's stamp stays
+        reader_utc = any(strip_tmpl(x.get("callee") or "").split("::")[-1] in ("toUTC", "toTimeSpec") for _, r_ in readers for x in walk(deref_local(init, r_)) if x.get("k") == "call") or \
+            any(strip_tmpl(x.get("callee") or "").split("::")[-1] in ("toUTC", "toTimeSpec") for n_, _ in readers for x in walk(n_) if x.get("k") == "call")
+        tod_bad = None
+        for c in good:
+            v_ = skip_copies(deref_local(fn, c["args"][0]))
+            if not (isinstance(v_, dict) and v_.get("k") == "construct" and strip_tmpl(v_.get("class") or "") == "QDateTime" and len(v_.get("args", [])) >= 2):
+                continue
+            a_ = v_["args"]
+            spec = [x for x in a_[2:] if x.get("k") != "defaultarg"]
+            spec_v = const_int(spec[0]) if spec else 0          # Qt::LocalTime == 0, Qt::UTC == 1
+            if spec and spec_v not in (None, 0) and not reader_utc:
+                tod_bad = (c, "%s stamps the day as a time in another time specification than the local one init() reads the date in: east of UTC+12 / west of UTC-12 the local date of that instant is another day" % name)
+                break
+            t_ = skip_copies(deref_local(fn, a_[1]))
+            if isinstance(t_, dict) and t_.get("k") == "construct" and strip_tmpl(t_.get("class") or "") == "QTime":
+                hms = [const_int(x) for x in t_.get("args", []) if x.get("k") != "defaultarg"]
+                if hms and hms[0] is not None and not (3 <= hms[0] <= 20) and spec_v == 0:
+                    tod_bad = (c, "%s stamps the day as %02d:%02d local time, an hour that DST changes skip on some days in some zones (America/Nuuk: 23:00-24:00 on the last Saturday of March): the QDateTime is invalid, "
+                               "setFileTime() refuses it and the kernel's stamp of the write-out stays" % (name, hms[0], hms[1] if len(hms) > 1 and hms[1] is not None else 0))
+                    break
+        if tod_bad:
+            ck.ob(rid, sitestr(fn, tod_bad[0]), False, "%s. %s" % (tod_bad[1], consequence), key="day-state|%s|time-of-day" % tag)
+            continue
         at = scenario(fn)
         keep = g.projector(at)
         sites = set(g.sites_of_nodes(good))
